@@ -186,23 +186,39 @@ impl SignalUse {
             .filter(|constraint| {
                 // The assigned signal is either a signal of the template or a
                 // signal of a component (`c.in <-- x`), which is tracked as a
-                // component use rather than a signal use.
-                let lhe = constraint
-                    .lhe
-                    .signals_read()
-                    .iter()
-                    .chain(constraint.lhe.components_read().iter())
-                    .chain(constraint.lhe.components_written().iter());
-                let rhe =
-                    constraint.rhe.signals_read().iter().chain(constraint.rhe.components_read().iter());
-                // The use mentions the assigned signal when one access is a
-                // prefix of the other (`q[1] <-- ..` and `q[1][0] === ..`,
-                // `out <-- [..]` and `out[0] === ..`, `o[0] <-- ..` and `o === ..`).
-                lhe.chain(rhe).any(|signal_use| {
-                    let used = signal_use.access();
+                // component use rather than a signal use. A use mentions the
+                // assigned signal when one access is a prefix of the other
+                // (`q[1] <-- ..` and `q[1][0] === ..`, `out <-- [..]` and
+                // `out[0] === ..`, `o[0] <-- ..` and `o === ..`).
+                let mentions = |name: &VariableName, used: &[AccessType]| {
                     let n = used.len().min(access.len());
-                    signal_use.name() == signal && used[..n] == access[..n]
-                })
+                    name == signal && used[..n] == access[..n]
+                };
+                let any_read = |expr: &Expression| {
+                    expr.signals_read()
+                        .iter()
+                        .chain(expr.components_read().iter())
+                        .any(|signal_use| mentions(signal_use.name(), signal_use.access()))
+                };
+                if let Expression::Update { var, access: target, rhe, .. } = &constraint.rhe {
+                    // A constraint assignment `var[target] <== rhe` mentions its
+                    // target, the signals of the index expressions and the signals
+                    // of the right-hand side, but not `var` as a whole (which the
+                    // update node reads with an empty access).
+                    mentions(var, target)
+                        || any_read(rhe)
+                        || target.iter().any(|access| {
+                            matches!(access, AccessType::ArrayAccess(index) if any_read(index))
+                        })
+                } else {
+                    any_read(&constraint.lhe)
+                        || any_read(&constraint.rhe)
+                        || constraint
+                            .lhe
+                            .components_written()
+                            .iter()
+                            .any(|signal_use| mentions(signal_use.name(), signal_use.access()))
+                }
             })
             .collect()
     }
